@@ -46,6 +46,15 @@ pub fn by_id(id: &str) -> Option<Box<dyn Prop>> {
     }
 }
 
+thread_local! {
+    /// faults fired by the link of the run being generated that leave no operation behind
+    static HIDDEN: std::cell::RefCell<Vec<Fault>> = const { std::cell::RefCell::new(Vec::new()) };
+}
+
+pub fn take_hidden_faults() -> Vec<Fault> {
+    HIDDEN.with(|h| std::mem::take(&mut *h.borrow_mut()))
+}
+
 pub fn default_simplify(sc: &Scenario, i: usize) -> Vec<Op> {
     let mut out = Vec::new();
     if let Op::Line(l) = &sc.ops[i] {
@@ -97,6 +106,8 @@ pub fn chaos_ops(
         }
     }
     link.flush(rng);
+    let dropped = link.stats.fired[Fault::Drop.index()] as usize;
+    HIDDEN.with(|h| h.borrow_mut().extend(std::iter::repeat(Fault::Drop).take(dropped)));
     let mut ops = std::mem::take(&mut link.out);
     ops.truncate(cap);
     let desc = format!(
@@ -164,6 +175,15 @@ pub fn run_lines(
 
 pub fn sample_of(sc: &Scenario, max_ops: usize) -> String {
     let mut s = String::new();
+    if let Some(st) = &sc.stream {
+        let mut t = crate::json::show(&st.data);
+        if t.len() > 400 {
+            t.truncate(400);
+            t.push('…');
+        }
+        let steps: Vec<String> = st.steps.iter().take(12).map(|n| if *n == 0 { "EINTR".to_string() } else { n.to_string() }).collect();
+        return format!("stdin({} bytes)={} | read schedule: [{}{}]", st.data.len(), t, steps.join(","), if st.steps.len() > 12 { ",…" } else { "" });
+    }
     for (i, op) in sc.ops.iter().take(max_ops).enumerate() {
         if i > 0 {
             s.push_str(" | ");
